@@ -96,7 +96,9 @@ func (h *Head) Update(refs *Refs, rootGoitPath, newRef string) error {
 	if _, err := os.Stat(headPath); os.IsNotExist(err) {
 		return errors.New("fail to find HEAD, cannot update")
 	}
-	f, err := os.Create(headPath)
+	// write to a temporary file and rename it, so that an interrupted write never leaves an empty HEAD
+	tmpPath := headPath + ".tmp"
+	f, err := os.Create(tmpPath)
 	if err != nil {
 		return fmt.Errorf("fail to create HEAD: %w", err)
 	}
@@ -104,6 +106,12 @@ func (h *Head) Update(refs *Refs, rootGoitPath, newRef string) error {
 
 	if _, err := f.WriteString(fmt.Sprintf("ref: refs/heads/%s", newRef)); err != nil {
 		return fmt.Errorf("fail to write HEAD: %w", err)
+	}
+	if err := f.Close(); err != nil {
+		return fmt.Errorf("fail to write HEAD: %w", err)
+	}
+	if err := os.Rename(tmpPath, headPath); err != nil {
+		return fmt.Errorf("fail to create HEAD: %w", err)
 	}
 
 	h.Reference = newRef
